@@ -12,8 +12,8 @@ META = {
                  "objects of the multi-instance backend, in lock-step with a reference state machine written from the property text",
         "thorough": "histories of <=4 operations",
     },
-    "outside": "three or more sandbox objects; histories longer than the bound; behaviour after a *failed* create is only required to keep the sandbox "
-               "unusable (retrying create is a don't-care, as the statement does not define it)",
+    "outside": "three or more sandbox objects; histories longer than the bound (a failed create is inside the claim: it leaves the object "
+               "not created, unusable, and creation may be attempted again)",
     "assumptions": ["operation choice per step and the backend's create result are the symbolic inputs"],
 }
 NOPS = 12
@@ -54,7 +54,7 @@ def check_hist(ctx, depth, first):
         steps = [e for e in lg if e[0] == 6]
         ctx.obligations += 1
         bad = None
-        st = ["N", "N"]          # per sandbox: N not created, C created, F create failed
+        st = ["N", "N"]          # per sandbox: N not created, C created
         lib = 0                   # library s0 will be bound to at its next create
         curlib = None
         owner = None              # incarnation number of s0 in which o0 registered cb0, or None
@@ -89,7 +89,7 @@ def check_hist(ctx, depth, first):
                         break
                     ok = creates[ci]
                     ci += 1
-                    st[i] = "C" if ok else "F"
+                    st[i] = "C" if ok else "N"       # a failed creation leaves the sandbox not created: it may be attempted again
                     if i == 0:
                         curlib = lib
                         lib ^= 1
